@@ -21,6 +21,10 @@ broken = re.findall(r'BROKEN (\S+)', patched)
 m = re.search(r'check exit (\d+)', patched)
 check_exit = int(m.group(1)) if m else None
 restored = d.get('restoring: check on /repo', '')
+import os
+_rl = '/tmp/fin_restore_%s.log' % name[:3]
+if not restored and os.path.exists(_rl):
+  restored = open(_rl, errors='replace').read()
 p = '/verif/seeded/%s/meta.json' % name
 meta = json.load(open(p))
 old = meta.get('confirmed', {})
@@ -33,7 +37,7 @@ conf = {
   'violation_lines': len(viol),
   'no_failing_input_found': sum(1 for v in viol if v.rstrip().endswith('no-failing-input-found')),
   'broken': sorted(set(broken)),
-  'check_on_repo_after': 'exit=0' if 'exit=0' in restored and 'VIOLATION' not in restored else restored.strip()[-200:],
+  'check_on_repo_after': 'exit=0' if 'exit=0' in restored and '\nVIOLATION' not in restored else restored.strip()[-200:],
   'status': 'caught' if check_exit == 1 and viol else 'missed',
   'ran': './seedtest %s /verif/seeded/%s --tests' % (name[:3], name),
 }
